@@ -2,3 +2,4 @@
 PROPERTY_RULES = {
     "C05": ["r28_dispatch"],
 }
+PROPERTY_RULES["C03"] = ["r01_leak"]
